@@ -96,10 +96,10 @@ def run(ctx):
                 "table": cases[137]["table"], "query": model.queries[200],
                 "denotation_mask": cases[137]["dens"][200]})
     # binding B: random large indices / query trees, recorded on the real iterators, judged by TLC
+    col.register()
     from props import itertrace
     itertrace.validate(ctx, col, mode="query", runs=ctx.pick(250, 4000), maxkeys=ctx.pick(120, 600),
                        calls=ctx.pick(25, 60), kinds="array,tree,compact")
-    col.register(model)
     ctx.evaluations += col.stats.get("sequences", 0)
     ctx.traces_validated += col.stats.get("sequences", 0)
     return ctx.finish(
